@@ -34,6 +34,9 @@ func opcodeNames(c *Ctx) map[string]int64 {
 
 // opcodeKeysOfMapLiteral: opcode constant names used as keys of the (first) map literal in decl
 // (keys spelled vm.OpX or byte(vm.OpX)).
+// optableBoolOnly restricts the package-level tables opcodeKeysOfMapLiteral follows to yes/no tables.
+var optableBoolOnly = false
+
 func opcodeKeysOfMapLiteral(c *Ctx, rel string, decl *ast.FuncDecl, valueString bool) map[string]bool {
 	out := map[string]bool{}
 	if decl == nil {
@@ -61,6 +64,85 @@ func opcodeKeysOfMapLiteral(c *Ctx, rel string, decl *ast.FuncDecl, valueString 
 				}
 				return true
 			})
+		}
+		return true
+	})
+	// the same table kept in a package-level variable (a map or an array indexed by opcode) that the function consults
+	ast.Inspect(decl, func(n ast.Node) bool {
+		ix, ok := n.(*ast.IndexExpr)
+		if !ok {
+			return true
+		}
+		id, ok := ix.X.(*ast.Ident)
+		if !ok {
+			return true
+		}
+		v, ok := p.TypesInfo.Uses[id].(*types.Var)
+		if !ok || v.Parent() != p.Types.Scope() {
+			return true
+		}
+		if optableBoolOnly {
+			// a yes/no table only (the jump set): a table of operand widths consulted by the same walk is another table
+			var elem types.Type
+			switch u := v.Type().Underlying().(type) {
+			case *types.Map:
+				elem = u.Elem()
+			case *types.Array:
+				elem = u.Elem()
+			case *types.Slice:
+				elem = u.Elem()
+			}
+			if bt, ok := elem.Underlying().(*types.Basic); elem == nil || !ok || bt.Kind() != types.Bool {
+				return true
+			}
+		}
+		for _, f := range p.Syntax {
+			for _, d := range f.Decls {
+				gd, ok := d.(*ast.GenDecl)
+				if !ok {
+					continue
+				}
+				for _, sp := range gd.Specs {
+					vs, ok := sp.(*ast.ValueSpec)
+					if !ok {
+						continue
+					}
+					for i, nm := range vs.Names {
+						if p.TypesInfo.Defs[nm] != types.Object(v) || i >= len(vs.Values) {
+							continue
+						}
+						cl, ok := vs.Values[i].(*ast.CompositeLit)
+						if !ok {
+							continue
+						}
+						for _, el := range cl.Elts {
+							kv, ok := el.(*ast.KeyValueExpr)
+							if !ok {
+								continue
+							}
+							// an entry with a zero / false value says "no"
+							if tv, ok := p.TypesInfo.Types[kv.Value]; ok && tv.Value != nil {
+								if tv.Value.Kind() == constant.Int {
+									if z, ok := constant.Int64Val(tv.Value); ok && z == 0 {
+										continue
+									}
+								}
+								if tv.Value.Kind() == constant.Bool && !constant.BoolVal(tv.Value) {
+									continue
+								}
+							}
+							ast.Inspect(kv.Key, func(m ast.Node) bool {
+								if kid, ok := m.(*ast.Ident); ok {
+									if k, ok := p.TypesInfo.Uses[kid].(*types.Const); ok && typeIs(k.Type(), vmPath, "Opcode") {
+										out[k.Name()] = true
+									}
+								}
+								return true
+							})
+						}
+					}
+				}
+			}
 		}
 		return true
 	})
@@ -243,7 +325,9 @@ func opcodeTableRule(c *Ctx, rule string) {
 	compHas := opcodeKeysOfMapLiteral(c, compilerPkg, c.decl(compilerPkg, "hasOperand"), false)
 	decHas := opcodeKeysOfMapLiteral(c, decompPkg, c.decl(decompPkg, "hasOperand"), false)
 	decNames := opcodeKeysOfMapLiteral(c, decompPkg, c.decl(decompPkg, "opcodeToString"), true)
+	optableBoolOnly = true
 	jumpSet := opcodeKeysOfMapLiteral(c, compilerPkg, c.decl(compilerPkg, "Compiler.adjustJumpTargets"), false)
+	optableBoolOnly = false
 	if len(jumpSet) == 0 {
 		// the table may live in a predicate the walk calls (`isJumpOpcode(op)`): a package function other than the
 		// operand table, taking the opcode and returning bool
